@@ -6,7 +6,8 @@
    (host, session id) pair). *)
 From Coq Require Import List NArith ZArith Bool Arith Lia.
 From Muscle Require Import Gen.Consts Refl.Base Refl.BaseProofs Refl.Tree Refl.TreeProofs Refl.Matcher Refl.Traverse Refl.Session
-  Refl.Server Refl.ServerProofs Refl.Route Refl.TravBase Refl.TraverseProofs Refl.TraverseTheorems Refl.RouteProofs.
+  Refl.Server Refl.ServerProofs Refl.BoundedInv Refl.Route Refl.TravBase Refl.TraverseProofs Refl.TraverseTheorems Refl.RouteProofs
+  Refl.RouteRun.
 Import ListNotations.
 
 Lemma wf_tree_tree_wf : forall t : tree, wf_tree t -> tree_wf t.
@@ -131,6 +132,58 @@ Proof.
   induction evs as [|ev evs IH]; intros st H; [exact H|]. cbn [rrun fold_left]. apply IH. now apply rstep_routes_wf.
 Qed.
 
+(* every attached session has its routing record, in the same order *)
+Definition aligned (st : rstate) : Prop := map ri_id (rs_info st) = ids (rs_srv st).
+
+Lemma grown1_ids : forall d l l', Forall2 (grown1 d) l l' -> map ri_id l' = map ri_id l.
+Proof. intros d l l' H. induction H as [|a b l l' [Hab _] H IH]; cbn; [reflexivity | now rewrite Hab, IH]. Qed.
+
+Lemma map_filter_ri : forall (l : list rinfo) (s : sid),
+  map ri_id (filter (fun ri => negb (N.eqb (ri_id ri) s)) l) = filter (fun k => negb (N.eqb k s)) (map ri_id l).
+Proof.
+  induction l as [|x l IH]; intros s; cbn [filter map]; [reflexivity|].
+  destruct (N.eqb (ri_id x) s); cbn [negb map]; [apply IH | now rewrite IH].
+Qed.
+
+Lemma rstep_aligned : forall st ev, aligned st -> aligned (rstep fx st ev).
+Proof.
+  intros st ev H. unfold aligned in *. destruct ev as [s host nm | s | s c]; cbn [rstep].
+  - destruct (get_session (rs_srv st) s) eqn:E; [exact H|]. cbn [rs_info rs_srv step]. rewrite E.
+    rewrite map_app, H, ids_new_session. reflexivity.
+  - cbn [rs_info rs_srv step]. rewrite map_filter_ri, H, ids_detach. reflexivity.
+  - destruct (get_session (rs_srv st) s) as [ss|] eqn:E; [|exact H]. destruct c as [p | l | m | c'].
+    + unfold upd_info. cbn [rs_info rs_srv]. rewrite map_map, <- H. apply map_ext. intros ri.
+      destruct (N.eqb (ri_id ri) s); [apply set_params_keeps | reflexivity].
+    + unfold upd_info. cbn [rs_info rs_srv]. rewrite map_map, <- H. apply map_ext. intros ri.
+      destruct (N.eqb (ri_id ri) s); [apply remove_params_keeps | reflexivity].
+    + rewrite route_msg_srv, <- H. unfold route_msg. destruct (in_cmd_range (u_what m)); [reflexivity|].
+      rewrite E. destruct (get_info st s) as [ri0|]; [|reflexivity].
+      destruct (u_keys m).
+      * destruct (has_param (ri_params ri0) PKeys); [cbn [set_infos rs_info]; apply (grown1_ids _ _ _ (pass_traversal_grown fx st s _ _ _))|].
+        destruct (ri_gw2nb ri0); [|reflexivity]. cbn [set_infos rs_info].
+        apply (grown1_ids _ _ _ (broadcast_grown _ s _ _ _ _ (grown_refl_list _ _))).
+      * cbn [set_infos rs_info]. apply (grown1_ids _ _ _ (pass_traversal_grown fx st s _ _ _)).
+    + cbn [rs_info rs_srv step]. rewrite E. rewrite ids_push_all, ids_handle. exact H.
+Qed.
+
+Lemma rrun_aligned : forall evs st, aligned st -> aligned (rrun fx evs st).
+Proof.
+  induction evs as [|ev evs IH]; intros st H; [exact H|]. cbn [rrun fold_left]. apply IH. now apply rstep_aligned.
+Qed.
+
+Lemma find_info_in : forall (l : list rinfo) (s : sid), In s (map ri_id l) -> exists ri, find (fun ri => N.eqb (ri_id ri) s) l = Some ri.
+Proof.
+  induction l as [|x l IH]; intros s H; [destruct H|]. cbn [find].
+  destruct (N.eqb (ri_id x) s) eqn:E; [now exists x|].
+  destruct H as [H|H]; [apply N.eqb_neq in E; cbn in H; contradiction | now apply IH].
+Qed.
+
+(* an attached session has a routing record *)
+Lemma aligned_get_info : forall st s ss, aligned st -> get_session (rs_srv st) s = Some ss -> exists ri, get_info st s = Some ri.
+Proof.
+  intros st s ss H Hs. unfold get_info. apply find_info_in. rewrite H. apply get_session_ids. now exists ss.
+Qed.
+
 End Reach.
 
 Section ReachFixed.
@@ -151,6 +204,9 @@ Proof.
   apply rrun_routes_wf. intros ri [].
 Qed.
 
+Lemma reachable_aligned : forall (fx : rfixes) (evs : list revent), aligned (rrun fx evs empty_rstate).
+Proof. intros fx evs. apply rrun_aligned. reflexivity. Qed.
+
 (* deliver_once in every reachable state *)
 Theorem deliver_once_reachable_lemma : forall (evs : list revent) (s : sid) (ss : session) (ri : rinfo) (m : umsg),
   small (run_budget (flat_map srv_ev evs)) -> wf_run (srv_fixes FX) empty_server (flat_map srv_ev evs) ->
@@ -169,6 +225,22 @@ Proof.
   - intros c ks k Hk Hin. now apply (ckeys_spec c ks Hk k).
   - intros n _. apply Forall_forall. intros; exact I.
   - apply RWF. unfold get_info in Hi. apply find_some in Hi. tauto.
+Qed.
+
+(* ... and the routing record of an attached session always exists *)
+Theorem deliver_once_reachable_full_lemma : forall (evs : list revent) (s : sid) (ss : session) (m : umsg),
+  small (run_budget (flat_map srv_ev evs)) -> wf_run (srv_fixes FX) empty_server (flat_map srv_ev evs) ->
+  let st := rrun FX evs empty_rstate in
+  get_session (rs_srv st) s = Some ss -> in_cmd_range (u_what m) = false ->
+  exists ri, get_info st s = Some ri /\
+    rstep FX st (RCmd s (RMsg m))
+    = mkRS (rs_srv st)
+           (map (fun x => if route_targets st s ri m (ri_id x)
+                          then put_inbox s (mkD s (u_tag m) (overwrite (u_session m) (s_name ss))) x else x) (rs_info st)).
+Proof.
+  intros evs s ss m HB HW st Hs Hw.
+  destruct (aligned_get_info st s ss (reachable_aligned FX evs) Hs) as [ri Hi].
+  exists ri. split; [exact Hi|]. now apply deliver_once_reachable_lemma.
 Qed.
 
 End ReachFixed.
